@@ -63,6 +63,12 @@ Theorem paint_down_to_common_complete : forall o first others fuel g g' bases x,
   is_merge_base o first others x -> In x (map fst bases).
 Proof. exact paint_complete. Qed.
 
+(* the first phase never panics (queue non-empty when popped, everything queued is in the graph) *)
+Theorem paint_down_to_common_no_panic : forall o first others fuel g,
+  graph_ok o g -> (forall i, fl g i = f_empty) ->
+  paint_down_to_common fuel o g first others <> Panic.
+Proof. exact paint_no_panic. Qed.
+
 Theorem remove_redundant_spec : forall o commits, NoDup (map fst commits) ->
   forall fuel g g' r,
   graph_ok o g -> keys_ok o commits ->
